@@ -372,10 +372,61 @@ CHECKS["C12"] = {
     ],
 }
 
-# C11 (duplicate detection in IDL::from_token) was attempted and is NOT claimed: harness/parser/c11.rs with
-# the recursion cuts below still runs out of memory (14 GB, > 850 s) for two members with a single
-# solver-chosen name - BTreeMap<&str, Method> insertion plus the recursive drop glue of the AST types.
-# See DESIGN.md section 5.
+# ---------------------------------------------------------------------------------------------
+# C11: the peg grammar text is encoded by smt/ (z3) and compared with a fixed reference grammar.
+# (Duplicate detection in IDL::from_token: harness/parser/c11.rs, see below.)
+import os as _os
+import sys as _sys
+_sys.path.insert(0, _os.path.join(_os.path.dirname(_os.path.dirname(_os.path.abspath(__file__))), "smt"))
+from c11_instances import INSTANCES as _C11  # noqa: E402
+
+C11_FUNCS = ["varlink_parser/src/varlink_grammar.rs: every rule of the peg grammar reachable from ParseInterface "
+             "(whitespace, eol_r, comment, eol, wce, field_name, name, interface_name, array, dict, option, btype, type_, "
+             "object_field, vstruct, venum, vtypedef, error, method, member, ParseInterface), under rust-peg's "
+             "recognition semantics"]
+C11_RULE = ("SMT (z3 5.1, QF_BV): the grammar source of /repo is read on every run and turned into its bounded PEG "
+            "encoding (ordered choice, possessive repetition, separator back-off, look-ahead: smt/enc.py Peg); the fixed "
+            "reference grammar (smt/varlink_ref.py) is encoded under its declarative reading (smt/enc.py Decl). "
+            "evaluations = solver queries; one `languages differ` query per text length, unsat = the real grammar accepts "
+            "exactly the reference language on every ASCII text of the stated shape; plus one `a repetition matches the "
+            "empty string` query per length and two reachability queries. A model is replayed through the real "
+            "IDL::try_from natively before it is reported.")
+
+
+def c11_h(name):
+    prefix, kmax, suffix, what, tiers, mode = _C11[name]
+    return H(name, engine="smt", script="c11.py", tiers=tiers, timeout=(900, 5400), functions=C11_FUNCS,
+             symbolic="%s: %d bytes, each any of the 128 ASCII values" % (what, kmax),
+             bounds="every text %r + w + %r with |w| = 0..%d over ASCII (128^%d texts for the longest length)" % (
+                 prefix, suffix, kmax, kmax),
+             stubs=[])
+
+
+CHECKS["C11"] = {
+    "design_ref": "3/C11",
+    "rule": C11_RULE,
+    "no_common_assumptions": True,
+    "harnesses": [
+        H("c11_translation_validated", engine="smt", script="c11.py", needs_replayer=True, timeout=(900, 900),
+          functions=C11_FUNCS,
+          symbolic="none: translator validation. Every string literal the repo's own parser tests pass to IDL::try_from, every "
+                   ".varlink file in the repo, fixed edge cases and their single-edit neighbours go through the real parser "
+                   "(native build) and through the encoding with concrete bytes; one disagreement makes the whole check "
+                   "inconclusive",
+          bounds="corpus of a few hundred to a few thousand ASCII texts", stubs=[]),
+    ] + [c11_h(n) for n in _C11],
+    "assumptions": [
+        "reduced claim: syntactic acceptance (IDL::try_from does not return Error::Parse) == membership in the reference "
+        "grammar, for the text shapes listed under samples; the reference's lexical rules are the documented varlink "
+        "regular expressions, its layout rules (where blanks, comments and line ends may stand) are transcribed from the "
+        "pinned grammar and read declaratively",
+        "ASCII texts only: the non-ASCII blanks and line separators of the whitespace / eol_r rules are outside",
+        "what is encoded is the grammar *text* under rust-peg's documented recognition semantics, not the Rust code the "
+        "peg macro expands to; the translator is validated on every run against the real parser (c11_translation_validated)",
+        "action blocks are not encoded: `mirrors the source` is decided for member kinds, names and order by the Kani "
+        "harnesses on IDL::from_token, not for field types and documentation strings",
+    ],
+}
 
 CHECKS["C02"] = {
     "design_ref": "3/C02",
